@@ -188,7 +188,7 @@ b('seq-strict', ['C08', 'C13'], 'src/matcher.go', "if val.seq >= request.seq {",
 # (a benign 'new action' edit needs the stringer tool to regenerate actiontype_string.go; not available offline)
 b('lookup-then-guard', ['C01'], 'src/pattern.go', "\tif p.cacheable {\n\t\tif cached := p.cache.Lookup(chunk, cacheKey); cached != nil {\n\t\t\treturn cached\n\t\t}\n\t}", "\tcached := p.cache.Lookup(chunk, cacheKey)\n\tif p.cacheable && cached != nil {\n\t\treturn cached\n\t}")
 
-b('ansi-introducer-expr', ['C11'], 'src/ansi.go', "\tswitch c {\n\tcase '\\\\', '[', '(', ')':\n\t\treturn true\n\t}\n\treturn false", "\treturn c == '[' || c == '\\\\' || c == '(' || c == ')'")
+b('ansi-introducer-expr', ['C11'], 'src/ansi.go', "\tswitch c {\n\tcase '[', '(', ')':\n\t\treturn true\n\t}\n\treturn false", "\treturn c == '(' || c == '[' || c == ')'")
 b('ansi-rename-state256', ['C11'], 'src/ansi.go', 'state256', 'extState', count=0)
 b('ansi-finals-reorder', ['C11'], 'src/ansi.go', "if 'a' <= c && c <= 'z' || 'A' <= c && c <= 'Z' || c == '@' {", "if c == '@' || 'A' <= c && c <= 'Z' || 'a' <= c && c <= 'z' {")
 b('ansi-attr-compound', ['C11'], 'src/ansi.go', "state.attr = state.attr | tui.Bold", "state.attr |= tui.Bold")
@@ -219,6 +219,44 @@ b('dumpstatus-max-args', ['C16'], 'src/terminal.go', "matches := make([]StatusIt
 b('alt-unescape-order', ['C17'], 'src/options.go', "\t\t\t\tcase escapedColon:\n\t\t\t\t\tr = ':'\n\t\t\t\tcase escapedComma:\n\t\t\t\t\tr = ','\n", "\t\t\t\tcase escapedComma:\n\t\t\t\t\tr = ','\n\t\t\t\tcase escapedColon:\n\t\t\t\t\tr = ':'\n")
 b('preview-flags-or', ['C12', 'C20'], 'src/terminal.go', "\t\tif flags.plus {\n\t\t\tplus = true\n\t\t}\n", "\t\tplus = plus || flags.plus\n")
 b('equals-field-order', ['C11'], 'src/ansi.go', "return s.fg == t.fg && s.bg == t.bg && s.attr == t.attr && s.lbg == t.lbg && s.url == t.url", "return s.url == t.url && s.lbg == t.lbg && s.attr == t.attr && s.bg == t.bg && s.fg == t.fg")
+
+# ---- round 7 rules: broken variants (beyond the reverse patches of D19..D39) and behaviour-preserving edits
+v('c02r9-v1-classified-fold', 'C02', 'C02-R9', 'src/algo/algo.go', "\t\t\t} else if char > unicode.MaxASCII {\n\t\t\t\tchar = unicode.To(unicode.LowerCase, char)\n\t\t\t}\n\t\t}\n\n\t\tif normalize {\n\t\t\tchar = normalizeRune(char)\n\t\t}\n\t\tif char == pchar {", "\t\t\t} else if char > unicode.MaxASCII && unicode.IsUpper(char) {\n\t\t\t\tchar = unicode.To(unicode.LowerCase, char)\n\t\t\t}\n\t\t}\n\n\t\tif normalize {\n\t\t\tchar = normalizeRune(char)\n\t\t}\n\t\tif char == pchar {")
+v('c03r5-prefix-score-plus-one', 'C03', 'C03-R5', 'src/algo/algo.go', "\treturn Result{trimmedLen, trimmedLen + lenPattern, score}, nil\n}\n\n// SuffixMatch", "\treturn Result{trimmedLen, trimmedLen + lenPattern, score + int(bonusBoundaryWhite)}, nil\n}\n\n// SuffixMatch")
+v('c03r6-history-keeps-delimiter-bonus', 'C03', 'C03-R6', 'src/algo/algo.go', "\tcase \"history\":\n\t\tbonusBoundaryWhite = bonusBoundary\n\t\tbonusBoundaryDelimiter = bonusBoundary\n", "\tcase \"history\":\n\t\tbonusBoundaryWhite = bonusBoundary\n")
+v('c18r8-fatal-keeps-looping', 'C18', 'C18-R8', 'src/terminal.go', "\t\t\t\tcase reqClose, reqQuit, reqPrintQuery, reqBecome, reqFatal:", "\t\t\t\tcase reqClose, reqQuit, reqPrintQuery, reqBecome:")
+v('c14r10-scrollbar-guard-lss', 'C14', 'C14-R10', 'src/terminal.go', "\tif total == 0 || total*perLine <= height {", "\tif total == 0 || total*perLine < height {")
+v('c09r9-constrain-no-max', 'C09', 'C09-R9', 'src/terminal.go', "\t\tt.cy = util.Constrain(t.cy, 0, util.Max(0, count-1))", "\t\tt.cy = util.Constrain(t.cy, 0, count-1)")
+v('c08r15-merge-drops-denylist', 'C08', 'C08-R15', 'src/terminal.go', "\tif len(pending.denylist) > 0 && pending.revision.compatible(r.revision) {\n\t\tr.denylist = append(pending.denylist, r.denylist...)\n\t}\n", "")
+v('c08r15-post-with-set', 'C08', 'C08-R15', 'src/terminal.go', "\t\t\tt.eventBox.Update(EvtSearchNew, func(pending any) any {\n\t\t\t\tif prev, ok := pending.(searchRequest); ok {\n\t\t\t\t\treturn reloadRequest.merge(prev)\n\t\t\t\t}\n\t\t\t\treturn *reloadRequest\n\t\t\t})", "\t\t\tt.eventBox.Update(EvtSearchNew, func(pending any) any {\n\t\t\t\treturn *reloadRequest\n\t\t\t})")
+v('c11r15-restart-keeps-ordinal', 'C11', 'C11-R15', 'src/core.go', "\t\titemIndex = 0\n\t\tlineAnsiState = nil\n", "\t\tlineAnsiState = nil\n")
+v('c14r11-terminate-keeps-files', 'C14', 'C14-R11', 'src/reader.go', "\tremoveFiles(r.tempFiles)\n\tr.tempFiles = nil\n\tr.mutex.Unlock()\n}", "\tr.tempFiles = nil\n\tr.mutex.Unlock()\n}")
+v('c14r11-quit-keeps-next', 'C14', 'C14-R11', 'src/core.go', "\t\t\t\t\tif nextCommand != nil {\n\t\t\t\t\t\tremoveFiles(nextCommand.tempFiles)\n\t\t\t\t\t}\n\t\t\t\t\tquitSignal := value.(quitSignal)", "\t\t\t\t\tquitSignal := value.(quitSignal)")
+v('c16r11-execute-silent-unlisted', 'C16', 'C16-R11', 'src/terminal.go', "\t\tactExecute,\n\t\tactExecuteSilent,\n\t\tactExecuteMulti,\n\t\tactReload,", "\t\tactExecute,\n\t\tactExecuteMulti,\n\t\tactReload,")
+v('c01r6-nbsp-rewrite', 'C01', 'C01-R6', 'src/pattern.go', "\t\tlowerText := strings.ToLower(text)\n", "\t\ttext = strings.ReplaceAll(text, \"\\u00a0\", \" \")\n\t\tlowerText := strings.ToLower(text)\n")
+v('c01r4-space-before-escape', 'C01', 'C01-R4', 'src/pattern.go', "\t\tif str[i] == '\\\\' && i+1 < len(str) && str[i+1] == ' ' {\n\t\t\ttoken.WriteByte(' ')\n\t\t\ti++\n\t\t} else if str[i] == ' ' {", "\t\tif str[i] == ' ' && i > 0 {\n\t\t\ttokens = append(tokens, token.String())\n\t\t\ttoken.Reset()\n\t\t} else if str[i] == '\\\\' && i+1 < len(str) && str[i+1] == ' ' {\n\t\t\ttoken.WriteByte(' ')\n\t\t\ti++\n\t\t} else if str[i] == ' ' {")
+v('c18r9-append-uncapped', 'C18', 'C18-R9', 'src/history.go', "\tif len(lines) > h.maxSize {\n\t\tlines = lines[len(lines)-h.maxSize:]\n\t}\n", "")
+v('c06r9-stream-despite-tail', 'C08', 'C06-R9', 'src/core.go', " && !opts.Sync && opts.Tail == 0\n", " && !opts.Sync\n")
+v('c13r10-push-outside-lock', 'C13', 'C13-R10', 'src/chunklist.go', "\tret := cl.lastChunk().push(cl.trans, data)\n\tcl.mutex.Unlock()\n\treturn ret\n", "\tlast := cl.lastChunk()\n\tcl.mutex.Unlock()\n\treturn last.push(cl.trans, data)\n")
+
+b('v1-range-test-order', ['C01', 'C02', 'C03', 'C05'], 'src/algo/algo.go', "\t\t\tif char >= 'A' && char <= 'Z' {\n\t\t\t\tchar += 32\n\t\t\t} else if char > unicode.MaxASCII {\n\t\t\t\tchar = unicode.To(unicode.LowerCase, char)\n\t\t\t}\n\t\t}\n\n\t\tif normalize {\n\t\t\tchar = normalizeRune(char)\n\t\t}\n\t\tif char == pchar {", "\t\t\tif char <= 'Z' && char >= 'A' {\n\t\t\t\tchar += 32\n\t\t\t} else if char > unicode.MaxASCII {\n\t\t\t\tchar = unicode.To(unicode.LowerCase, char)\n\t\t\t}\n\t\t}\n\n\t\tif normalize {\n\t\t\tchar = normalizeRune(char)\n\t\t}\n\t\tif char == pchar {")
+b('stream-tail-lss-one', ['C06', 'C08', 'C13'], 'src/core.go', " && !opts.Sync && opts.Tail == 0\n", " && !opts.Sync && opts.Tail < 1\n")
+b('init-defaults-swapped', ['C03', 'C05'], 'src/algo/algo.go', "\tdelimiterChars = \"/,:;|\"\n\tinitialCharClass = charWhite\n\tswitch scheme {", "\tinitialCharClass = charWhite\n\tdelimiterChars = \"/,:;|\"\n\tswitch scheme {")
+b('req-stop-if-chain', ['C18', 'C07', 'C09'], 'src/terminal.go', "\t\t\t\tswitch event {\n\t\t\t\tcase reqClose, reqQuit, reqPrintQuery, reqBecome, reqFatal:\n\t\t\t\t\t// The session ends with this request; stop processing keys\n\t\t\t\t\tlooping = false\n\t\t\t\t}", "\t\t\t\tif event == reqClose || event == reqQuit || event == reqPrintQuery || event == reqBecome || event == reqFatal {\n\t\t\t\t\tlooping = false\n\t\t\t\t}")
+b('preview-range-geq-one', ['C14', 'C20'], 'src/terminal.go', "t.activePreviewOpts.cycle && offsetRange > 0 {", "t.activePreviewOpts.cycle && offsetRange >= 1 {")
+b('vset-max-args-swapped', ['C09'], 'src/terminal.go', "\tt.cy = util.Constrain(o, 0, util.Max(0, t.merger.Length()-1))", "\tt.cy = util.Constrain(o, 0, util.Max(t.merger.Length()-1, 0))")
+b('label-pos-two-statements', ['C17'], 'src/options.go', "\t\t\tif opts.column, err = atoi(token); err != nil {\n\t\t\t\treturn err\n\t\t\t}", "\t\t\topts.column, err = atoi(token)\n\t\t\tif err != nil {\n\t\t\t\treturn err\n\t\t\t}")
+b('merge-statement-order', ['C08', 'C10'], 'src/terminal.go', "\tr.changed = r.changed || pending.changed\n\tif r.nth == nil {\n\t\tr.nth = pending.nth\n\t}\n", "\tif r.nth == nil {\n\t\tr.nth = pending.nth\n\t}\n\tr.changed = pending.changed || r.changed\n")
+b('restart-reset-order', ['C11', 'C06', 'C15'], 'src/core.go', "\t\titemIndex = 0\n\t\tlineAnsiState = nil\n\t\tinputRevision.bumpMajor()\n\t\theader = make([]string, 0, opts.HeaderLines)\n", "\t\titemIndex = 0\n\t\tinputRevision.bumpMajor()\n\t\theader = make([]string, 0, opts.HeaderLines)\n\t\tlineAnsiState = nil\n")
+b('walker-isdir-late', ['C19'], 'src/reader.go', "\t\t\t\t// A symbolic link to a directory that we follow is a directory\n\t\t\t\tisDir = true\n\t\t\t\tbase := filepath.Base(path)", "\t\t\t\tbase := filepath.Base(path)\n\t\t\t\tisDir = true")
+b('split-writestring', ['C01'], 'src/pattern.go', "\t\t\ttoken.WriteByte(' ')\n\t\t\ti++\n", "\t\t\ttoken.WriteString(\" \")\n\t\t\ti++\n")
+b('history-cap-flipped', ['C18'], 'src/history.go', "\tif len(lines) > maxSize {\n\t\tlines = lines[len(lines)-maxSize:]\n\t}\n", "\tif maxSize < len(lines) {\n\t\tlines = lines[len(lines)-maxSize:]\n\t}\n")
+b('terminate-order', ['C14', 'C13'], 'src/reader.go', "\tr.killed = true\n\tif r.termFunc != nil {\n\t\tr.termFunc()\n\t\tr.termFunc = nil\n\t}\n\t// fzf may exit before the reader gets to remove them\n\tremoveFiles(r.tempFiles)\n\tr.tempFiles = nil\n", "\tr.killed = true\n\t// fzf may exit before the reader gets to remove them\n\tremoveFiles(r.tempFiles)\n\tr.tempFiles = nil\n\tif r.termFunc != nil {\n\t\tr.termFunc()\n\t\tr.termFunc = nil\n\t}\n")
+b('watcher-peek-first', ['C20', 'C14'], 'src/terminal.go', "\t\t\t\t\t\t\ttimer := time.NewTimer(previewDelayed)\n\t\t\t\t\t\t\t// cancelPreview does not block. A request that was enqueued while\n\t\t\t\t\t\t\t// this command was being started found nobody listening, so its\n\t\t\t\t\t\t\t// cancellation was lost. It is still in the box.\n\t\t\t\t\t\t\tsuperseded := t.previewBox.Peek(reqPreviewEnqueue)\n", "\t\t\t\t\t\t\tsuperseded := t.previewBox.Peek(reqPreviewEnqueue)\n\t\t\t\t\t\t\ttimer := time.NewTimer(previewDelayed)\n")
+b('process-execution-order', ['C16'], 'src/terminal.go', "\t\tactExecute,\n\t\tactExecuteSilent,\n\t\tactExecuteMulti,", "\t\tactExecuteMulti,\n\t\tactExecuteSilent,\n\t\tactExecute,")
+b('tail-filter-named-diff', ['C09', 'C06'], 'src/terminal.go', "\t\t\t\tif k-minIndex >= 0 {", "\t\t\t\tif d := k - minIndex; d >= 0 {")
+b('equal-score-two-steps', ['C03', 'C05'], 'src/algo/algo.go', "\t\tscore, _ := calculateScore(caseSensitive, normalize, text, pattern, trimmedLen, trimmedLen+lenPattern, false)\n\t\treturn Result{trimmedLen, trimmedLen + lenPattern, score}, nil", "\t\teidx := trimmedLen + lenPattern\n\t\tscore, _ := calculateScore(caseSensitive, normalize, text, pattern, trimmedLen, eidx, false)\n\t\treturn Result{trimmedLen, eidx, score}, nil")
+b('proxy-done-named', ['C07', 'C14'], 'src/proxy.go', "\t<-outputDone\n\treturn ExitOk, nil", "\t_, _ = <-outputDone\n\treturn ExitOk, nil")
 
 def build(entries, outdir, kind):
     """One persistent scratch worktree per worker (same path for every variant, so the Go build cache hits);
